@@ -50,6 +50,10 @@ class AccessMixin:
                     return self.ev(ca[1], Frame(None, ca[0].module))
                 if attr == "__name__":
                     return SV(mk_str(ci.name), Ty("str"))
+                if getattr(self, "lenient", False):
+                    # attribute attached to the class elsewhere (e.g. `ArgSpec.NoArgsInstance = ...`): one opaque constant per name
+                    self.assumptions.add("LENIENT: class attributes assigned outside the class body are opaque constants")
+                    return SV(z3.Const(f"clsattr!{ci.name}.{attr}", Val), None)
                 raise Unsupported(f"class attribute {ci.name}.{attr}")
             if kind == "ext":
                 return SV(None, Ty("ext"), ("ext", m[1] + "." + attr))
